@@ -3,24 +3,26 @@
 # Confirms in a scratch worktree (outside /repo and /verif) that: demo passes on the clean tree, demo fails with the
 # patch, the full existing suite passes with the patch.  On success archives to /verif/seeded/<name>/.
 set -u
-name=$1; src=$2; prop=$3
+name=$1; src=$2; prop=$3; base=${4:-HEAD}
 wt=/tmp/confirm-wt-$name
 out=/verif/seeded/$name
 rm -rf "$wt"; git -C /repo worktree prune
-git -C /repo worktree add -q --detach "$wt" HEAD || exit 2
+git -C /repo worktree add -q --detach "$wt" "$base" || exit 2
 cp /repo/Cargo.lock "$wt"/ 2>/dev/null
 export CARGO_TARGET_DIR=/tmp/confirm-target     # shared between confirmations, removed by the caller at the end
 cd "$wt" || exit 2
 res() { echo "$1"; }
 ap() { git apply "$1" 2>/dev/null || git apply -3 "$1" 2>/dev/null; }
 ap "$src/demo.diff" || { echo "$name: demo.diff does not apply"; git -C /repo worktree remove --force "$wt"; exit 3; }
-clean_demo=$(cargo nextest run --offline --no-fail-fast seeded_demo 2>&1 | grep -E "Summary|tests run" | tail -1)
+clean_demo=$(timeout 600 cargo nextest run --offline --no-fail-fast seeded_demo 2>&1 | grep -E "Summary|tests run" | tail -1)
 ap "$src/patch.diff" || { echo "$name: patch.diff does not apply"; git -C /repo worktree remove --force "$wt"; exit 3; }
-patched_demo=$(cargo nextest run --offline --no-fail-fast seeded_demo 2>&1 | grep -E "Summary|tests run" | tail -1)
+patched_demo=$(timeout 600 cargo nextest run --offline --no-fail-fast seeded_demo 2>&1 | grep -E "Summary|tests run" | tail -1)
 # full suite with the patch, demo removed
 git checkout -q -- . ; git clean -fdq src
 ap "$src/patch.diff"
-suite=$(cargo nextest run --offline --no-fail-fast --test-threads 8 2>&1 | grep -E "Summary|tests run" | tail -1)
+suite=$(timeout 400 cargo nextest run --offline --no-fail-fast --test-threads 8 2>&1 | grep -E "Summary|tests run" | tail -1)
+# the repository's suite occasionally hangs (a test blocked on a pipe write at 0% CPU, also seen on the unchanged tree): retry once
+if [ -z "$suite" ]; then suite=$(timeout 400 cargo nextest run --offline --no-fail-fast --test-threads 8 2>&1 | grep -E "Summary|tests run" | tail -1); fi
 cd /; git -C /repo worktree remove --force "$wt"
 ok=1
 echo "$clean_demo" | grep -q "0 failed\|passed, 0 skipped" || { echo "$clean_demo" | grep -q "failed" && ok=0; }
